@@ -676,6 +676,11 @@ def ax_slice_iter(call):
     return call.ret(out)
 
 
+def _slice_off(st, root, path=()):
+    o = st.mem.get(root, {}).get(path + (("$off",),))
+    return o[1] if o and o[0] == "int" else 0
+
+
 def _closure_is_eq_with_capture(prog, clos_tree):
     """the closure's body is a single equality call between its argument and one captured value -> that captured leaf tree"""
     l = tree_leaf(clos_tree)
@@ -705,10 +710,11 @@ def _ax_slice_any(call):
     cap = _closure_is_eq_with_capture(call.interp.prog, call.args[1])
     if cap is not None and n[0] == "int" and 0 < n[1] <= 8:
         base = call.st.mem.get(sl[1], {}).get((("$base0",),))
+        off = _slice_off(call.st, sl[1])
         if base and base[0] == "ref":
             from .interp import variant_at
             needle = variant_at(call.deref(leaf_tree(cap))) if cap[0] == "ref" else None
-            elems = [variant_at(call.st.read_tree(base[1], base[2] + (("f", "#%d" % i),))) for i in range(n[1])]
+            elems = [variant_at(call.st.read_tree(base[1], base[2] + (("f", "#%d" % (off + i)),))) for i in range(n[1])]
             if needle and all(elems):
                 return call.ret_leaf(("int", 1 if needle in elems else 0))
     return NotImplemented
@@ -736,9 +742,11 @@ def _slice_iter_step(call, addr):
     # element address: through a prefix sub-slice to its base, else directly under the slice's own root
     root, path = sl[1], sl[2]
     base = call.st.mem.get(root, {}).get(path + (("$base0",),))
+    off = 0
     if base and base[0] == "ref":
+        off = _slice_off(call.st, root, path)
         root, path = base[1], base[2]
-    elem_path = path + (("f", "#%d" % i[1]),)
+    elem_path = path + (("f", "#%d" % (off + i[1])),)
     if not any(p[:len(elem_path)] == elem_path for p in call.st.mem.get(root, {})):
         return None
     call.st.write_leaf(addr[0], addr[1] + (("f", "@idx"),), ("int", i[1] + 1))
@@ -1085,6 +1093,10 @@ def _index_axiom(mutable):
             st.write_leaf(root, (("$base",),), bl)
         if bl[0] == "ref" and kind in ("to", "full"):
             st.write_leaf(root, (("$base0",),), bl)      # prefix of the base: element i of the slice is element i of the base
+        elif bl[0] == "ref" and kind in ("from", "range") and start is not None and start[0] == "int":
+            # a window starting at a known offset: element i of the slice is element off + i of the base
+            st.write_leaf(root, (("$base0",),), bl)
+            st.write_leaf(root, (("$off",),), start)
         return call.ret_leaf(("ref", root, ()))
     return ax
 
@@ -1165,6 +1177,23 @@ def ax_slice_first(call):
     return call.ret_app("<impl [T]>::first")
 
 
+@axiom("<impl [T]>::split_first", doc="Some((&s[0], &s[1..])) iff len > 0")
+def ax_slice_split_first(call):
+    n = _slice_len(call, call.args[0])
+    I = call.interp
+    key = call.arg_key(call.args[0])
+
+    def some():
+        rest = ("term", ("app", "slice", key, ("agg", (((("f", "start"),), ("int", 1)),)))) if key != TOP else TOP
+        return mk_variant("Some", {(): TOP, (("f", "0"),): ("term", ("app", "first", key)) if key != TOP else TOP, (("f", "1"),): rest})
+    pos = I.cmp_leaves(call.st, "Gt", n, ("int", 0), "usize") if n != TOP else TOP
+    if pos[0] == "int":
+        return call.ret(some() if pos[1] else mk_variant("None"))
+    if pos[0] == "term":
+        return call.ret_many([(st, some() if v else mk_variant("None")) for st, v in call.fork_bool(pos[1])])
+    return NotImplemented
+
+
 @axiom("<impl [T]>::contains", doc="false on an empty slice; otherwise an uninterpreted membership atom")
 def ax_slice_contains(call):
     n = _slice_len(call, call.args[0])
@@ -1178,10 +1207,11 @@ def ax_slice_contains(call):
     l = tree_leaf(call.args[0])
     if n[0] == "int" and 0 < n[1] <= 8 and l[0] == "ref":
         base = call.st.mem.get(l[1], {}).get((("$base0",),))
+        off = _slice_off(call.st, l[1])
         if base and base[0] == "ref":
             from .interp import variant_at
             needle = variant_at(call.deref(call.args[1]))
-            elems = [variant_at(call.st.read_tree(base[1], base[2] + (("f", "#%d" % i),))) for i in range(n[1])]
+            elems = [variant_at(call.st.read_tree(base[1], base[2] + (("f", "#%d" % (off + i)),))) for i in range(n[1])]
             if needle and all(elems):
                 return call.ret_leaf(("int", 1 if needle in elems else 0))
     return call.ret_app("<impl [T]>::contains")
@@ -1232,3 +1262,6 @@ def _httparse_parse(call):
 for _n in ("Response::<'h, 'b>::parse", "Request::<'h, 'b>::parse"):
     AXIOMS[_n] = _httparse_parse
     AXIOM_DOC[_n] = "httparse is a deterministic function of (input, field limit): verdict and parsed pieces are atoms keyed by them"
+
+
+from . import axioms_std  # noqa: E402,F401  (registers the combinator and iterator-adaptor axioms)
